@@ -7,15 +7,42 @@ props = [json.loads(l) for l in open(os.path.join(V, "properties.jsonl"))]
 TB = ("Trusted: Lean 4.33 kernel (axioms propext, Classical.choice, Quot.sound only, audited per theorem on every run); "
       "harness/extract_constants.py (translator of literals into Gen/Constants.lean); the correspondence harness and lean/Driver.lean. ")
 CLAIMED = {
- "C01": dict(text="Lean theorems about the chain model of removeOverlap+vpsc (merge loop ends eps-feasible, order kept) for all inputs; the model is tied to the code by exact-mode (Fraction) equality and float-mode closeness of every captured removeOverlap call, and the separation predicate (defined once, in Lean) is evaluated on the implementation's output",
-             note=TB + "Modelled not verified: IEEE doubles (tolerance 1e-6), round() half-even, stable sort. Known finding F2 (non-adjacent stubs) recorded.",
-             tech="Lean 4 proof of chain solver model + differential correspondence (exact Fraction mode and float mode)", ref="4/C01"),
- "C02": dict(text="Lean theorem: the pooled placement minimises weighted squared displacement among all order-keeping placements (with strong-convexity margin, hence unique); implementation positions compared with that proved optimum (exact mode equal, float mode within 1/2+1e-6 after rounding, 1e-6 before)",
-             note=TB + "Soft walls of weight 1e10 stand for the bounds; distance to the hard-bounded optimum is bounded, not zero (DESIGN 4/C02).",
-             tech="Lean 4 proof (Abel summation / prefix-residual invariant) + differential correspondence", ref="4/C02"),
- "C03": dict(text="Lean theorem: walls are chain variables, separation is kept whether or not the items fit; inside-bounds predicate (Lean) evaluated on implementation output with the a-posteriori wall displacement bound",
-             note=TB + "Bound on wall displacement uses total displacement / 1e10.",
-             tech="Lean 4 proof of chain model + differential correspondence", ref="4/C03"),
+ "C01": dict(text="Lean theorems for every layer and option set: the chain-solver model of removeOverlap+vpsc keeps the target order and every neighbour gap up to eps (unrounded) and up to 1+eps after rounding (removeOverlap_sep), any two items under the stated stub hypothesis (any_pair), with the F2 counterexample as a kernel-checked theorem; the model is tied to the code by exact-mode (Fraction) equality and float-mode closeness of every captured removeOverlap call (order, rounded and unrounded positions), and the separation predicate (defined once, in Lean) is evaluated on the implementation's output",
+             note=TB + "Modelled not verified: IEEE doubles (tolerance 1e-6), round() half-even, stable sort. Known finding F2 (non-adjacent stubs around a narrow label) recorded in known-findings.json.",
+             tech="Lean 4 proof (pool-adjacent-violators chain model, induction on merges) + differential correspondence in exact Fraction mode and float mode", ref="4/C01"),
+ "C02": dict(text="Lean theorem solve_optimal: the model's placement minimises weighted squared displacement among ALL placements keeping the gaps, with strong-convexity margin (unique optimum); solve_room_not_moved; reported positions within 1/2 of it (round_close). Implementation positions compared with that proved optimum (exact mode equal, float mode within 1e-6 unrounded, 1/2+1e-6 rounded)",
+             note=TB + "Soft walls of weight 1e10 stand for the bounds (they are terms of the cost); distance to the hard-bounded optimum is bounded by walls_near_bounds (C03), not zero.",
+             tech="Lean 4 proof (prefix-residual invariant + Abel summation) + differential correspondence", ref="4/C02"),
+ "C03": dict(text="Lean theorems: separation holds with no hypothesis about fitting (excess spills, never overlap); walls_near_bounds: W(x_L-lo)^2+W(x_R-hi)^2 <= cost of any in-bounds placement; wall gaps kept. Inside-bounds predicate (Lean) evaluated on implementation output",
+             note=TB + "The implementation predicate allows 1/2 (rounding) + total displacement/1e10 + 1e-6.",
+             tech="Lean 4 proof (corollary of optimality) + differential correspondence", ref="4/C03"),
+ "C05": dict(text="Lean theorems for ALL constraint graphs (DAGs, duplicates, cycles, any scales): weak duality and soundness of the executable certificate checker QP.check (acceptance implies feasibility within tol and cost <= cost z + tol for every feasible z); all chain instances feasible+optimal. On general DAGs the real solver's float result is judged against an optimum certified per instance by that proved checker (hints: the solver's own exact-arithmetic run continued until no split). Cyclic instances: termination (watchdog) and unflagged constraints hold. F1 recorded with a kernel-checked witness",
+             note=TB + "Partial by design: optimality for every DAG is FALSE for the code (F1, theorem dag_counterexample); per-instance validation by a proved checker is translation validation, not a universal theorem.",
+             tech="Lean 4 proof of certificate checker (weak duality) + per-instance certified validation + known-finding classifier", ref="4/C05"),
+ "C12": dict(text="Lean theorems over Q: end points exact, affine, strictly monotone with the right sign, invert is a two-sided inverse, clamping stays in range and equals the unclamped value inside, degenerate domain; state machine of domain/range/clamp/nice/copy over list cells: cache_coherent and separated for ALL op sequences, others_unaffected, copy_reports_same, legacy (shared-list) copy counterexample. Float implementation compared with the exact map under condition-number-scaled tolerances; histories of <=10 ops compared object by object",
+             note=TB + "IEEE-754 arithmetic is modelled by exact rationals ('up to floating-point error' in the property text is sampled, not proved).",
+             tech="Lean 4 proof (field arithmetic; invariant over op sequences) + differential correspondence with float-aware tolerances", ref="4/C12"),
+ "C13": dict(text="Lean theorems over Q for all spans and counts m>0: floorLog10 correct (fuel suffices), step is 1/2/5 x 10^k, 0.6999 span < m step <= 1.75 span, ticks are exactly the multiples of the step inside the domain, increasing, count within [floor(0.57m), 1.43m+1], label precision makes every tick an exact decimal (format_exact). Implementation ticks/texts compared with the model up to float end effects; threshold ties counted, not judged",
+             note=TB + "Thresholds 0.15/0.35/0.75 and multipliers come from Gen/Constants.lean (regenerated from scale.py): changing them re-opens span_over_step_bounds / tick_count.",
+             tech="Lean 4 proof (decade search, case analysis on error thresholds) + differential correspondence", ref="4/C13"),
+ "C14": dict(text="Lean theorems: linear nice widens, keeps orientation, moves each end by < 2 steps of the resulting domain (via tickStep monotone), ends are multiples of the second pass's step; time nice widens, keeps orientation, ends on boundaries of the tick unit. Implementation compared with the model (nudge/overshoot-aware relation for float quotients); predicates (widen, <2 steps, round ends / calendar alignment) evaluated on the implementation's result",
+             note=TB + "Partial: 'multiple of a tenth of the final step' and the time '< 2 tick steps' bound are evaluated per case by the Lean predicate on model and implementation, not proved for all inputs.",
+             tech="Lean 4 proof + differential correspondence with float-aware relation", ref="4/C14"),
+ "C15": dict(text="Lean theorems: the time scale is the linear scale on integer milliseconds: end points, proportional to elapsed time (equal durations map to equal lengths), strictly monotone, invert exact over Q. Implementation compared with the exact affine map (condition-scaled tolerance), round trip within 1 ms (+ float resolution of the range)",
+             note=TB + "datetime <-> millisecond conversion is exact integer timedelta arithmetic on the harness side.",
+             tech="Lean 4 proof (corollaries of C12) + differential correspondence", ref="4/C15"),
+ "C16": dict(text="Lean theorems for all integer instants and counts: time ticks strictly increasing, inside the domain, on boundaries of the chosen calendar unit (boundary hierarchy year>month>day>hour>minute>second, week>day), exact membership characterisation for calendar units with integral skip and for the millisecond branch. Tick lists compared exactly with the model; the full tick predicate (increasing, in-domain, alignment implied by the spacing, gap ratio <= 2, count bounds) is evaluated in Lean on the implementation's ticks",
+             note=TB + "Partial: gap-ratio and count bounds are evaluated per case on model and implementation (not proved for all domains).",
+             tech="Lean 4 proof (grid abstraction over calendar units) + exact differential correspondence", ref="4/C16"),
+ "C17": dict(text="Lean theorems for EVERY integer millisecond instant and all seven units: civil calendar bijection, floor is the latest boundary <= t, ceil the earliest >= t, round the nearer (later on tie), offset(b,k) the k-th following boundary, range lists exactly the boundaries in [t0,t1) with number divisible by the step, strictly increasing. Since each answer is unique, any disagreement between the code and the model is a property violation; compared on every day 1900-2200 plus month ends/leap days/ranges",
+             note=TB + "CPython datetime is modelled by the integer proleptic Gregorian calendar of the model (the correspondence compares them on every day of 1900-2200).",
+             tech="Lean 4 proof (omega over / and %, grid abstraction) + exhaustive-per-day differential correspondence", ref="4/C17"),
+ "C19": dict(text="Lean theorems for every string and every Unicode database: only accent commands of the table are produced, token-level read-back equals the one-step canonical decomposition of exactly the converted characters, characters without decomposition that are not accent marks are copied (ASCII untouched), string-level parse of the rendered text gives the same read-back when the decomposed input has no backslash/brace. Implementation output compared byte for byte with the model on every code point in four contexts and random strings",
+             note=TB + "The Unicode database (unicodedata) is a parameter of the model; each case carries the slice it touches.",
+             tech="Lean 4 proof (fold invariant; fuel-bounded parser) + exhaustive code-point differential correspondence", ref="4/C19"),
+ "C20": dict(text="Lean theorems for every natural number: names are non-empty A-Z strings, name2int(int2name i)=i (injective), every non-empty A-Z string is a name (enumeration), i<j implies shortlex order; colours: 3- and 6-digit codes either case with/without '#': RGB triple, doubling, TeX code is 6 upper-case hex digits denoting the same triple, rgb() string renders the triple and reads back. Implementation compared with the model on indices 0..10^6 and all 3-digit / sampled (thorough: more) 6-digit codes",
+             note=TB + "str(int)/int(s,16)/upper() modelled by digit arithmetic.",
+             tech="Lean 4 proof (bijective base-26 numeration; finite case analysis on hex digits) + differential correspondence", ref="4/C20"),
 }
 checks = []
 for p in props:
